@@ -22,6 +22,7 @@ TRUSTED = ["inside = odd number of crossings along a ray in general position (Jo
            "rtree / embree C libraries are exercised, not modelled",
            "float64 -> rational conversion by float.as_integer_ratio"]
 ASSUMPTIONS = ["queries within the margin of an edge, a vertex, the ray origin or the surface are out of scope (not judged)",
+               "meshes translated 1e6 .. 1e7 units from the origin: containment points from which the library's own test ray passes within float resolution of an edge are not generated (with the mesh near the origin they are, and pass)",
                "mesh sizes from 1e-3 to 1e3: below that the engines' absolute tolerances (1e-8) reach the margin itself"]
 EXPLANATION = "Lean theorems C12_* about the exhaustive rational model + every judged query compared with it"
 
@@ -60,6 +61,7 @@ def mesh(name):
     """'box' or 'box/r17' (rotated + translated by a matrix derived from the number)"""
     if name not in _M:
         import trimesh
+        name, _, far = name.partition("/o")
         name0, _, sexp = name.partition("/s")
         b, _, r = name0.partition("/r")
         m = _base(b).copy()
@@ -74,8 +76,12 @@ def mesh(name):
             m.apply_transform(T)
         if sexp:
             m.apply_scale(10.0 ** int(sexp))       # the same scene in another unit of length
+        if far:
+            # the same mesh far from the origin of the coordinate system (its size is unchanged)
+            m.apply_translation(np.array([1.0, -2.0, 0.5]) * 10.0 ** int(far))
         m = trimesh.Trimesh(np.array(m.vertices), np.array(m.faces), process=False)
-        _M[name] = m
+        _M[name + ("/o" + far if far else "")] = m
+        name = name + ("/o" + far if far else "")
     return _M[name]
 
 
@@ -102,6 +108,8 @@ def cases(ctx):
             name += "/r%d" % rng.randrange(40)
         if rng.random() < 0.3:
             name += "/s%d" % rng.choice([-3, -3, -2, 3])
+        elif rng.random() < 0.25:
+            name += "/o%d" % rng.choice([6, 6, 7])
         m = mesh(name)
         lo, hi = m.bounds
         ctr, ext = (lo + hi) / 2, hi - lo
@@ -173,7 +181,10 @@ def cases(ctx):
             # (the query point itself stays far from the surface): edge / vertex point minus a multiple of it
             d0 = np.array([0.4395064455, 0.617598629942, 0.652231566745])
             E = m.edges_unique
-            for _ in range(rng.randint(8, 14)):
+            # (not for meshes placed 1e6 .. 1e7 away from the origin: there the constructed point is only within float
+            # resolution, ~1e-9, of the grazing position, which is inside the excluded margin around the edge while the
+            # library's barycentric tolerance stays absolute)
+            for _ in range(rng.randint(8, 14) if "/o" not in name else 0):
                 a, b = m.vertices[E[rng.randrange(len(E))]]
                 q = a + rng.choice([0.0, 0.5, rng.random()]) * (b - a)
                 t = rng.choice([-1, 1]) * rng.uniform(0.03, 0.6) * float(np.linalg.norm(ext))
